@@ -5,6 +5,8 @@ PROP = dict(
     mc=[
         dict(module="MCCredentials", cfg=dict(quick="MCCredentials_quick.cfg", thorough="MCCredentials_thorough.cfg"),
              timeout=dict(quick=600, thorough=3000)),
+        # the tree as found (finding D27: Request.FormValue lets an empty access_token query parameter hide a multipart form token)
+        dict(module="MCCredentials", cfg="MCCredentials_asbuilt.cfg", expect_violation="Holds", timeout=300),
         # non-vacuity: mutants of the model must violate
         dict(module="MCCredentials", cfg="MCCredentials_mut_lastcolon.cfg", expect_violation="Holds", timeout=300),
         dict(module="MCCredentials", cfg="MCCredentials_mut_queryfirst.cfg", expect_violation="Holds", timeout=300),
